@@ -22,7 +22,7 @@ MANIFEST = {
                   "location: the trex is a parameter of both sides (C06_fragment_roundtrip_trex_cenc, _trex_cbcs WITHOUT a length hypothesis, C06_trex_mismatch_refuted). "
                   "Durations / flags / composition offsets / decode times: C06_timing_roundtrip (the defaults both sides write into trun.Samples with ANY trex leave no "
                   "trace in the encoded trun; metadata after encrypt and after decrypt = clear, for every combination of trun/tfhd/trex signalling incl. "
-                  "first-sample-flags), C06_sizes_agree. Whole files by induction over the fragment list: C06_file_roundtrip_cenc and C06_file_roundtrip_cbcs. Init: "
+                  "first-sample-flags), C06_sizes_agree, and C06_timing_roundtrip_multi for a traf with ANY number of truns (decode times of later truns depend on the durations of all earlier ones). Whole files by induction over the fragment list: C06_file_roundtrip_cenc and C06_file_roundtrip_cbcs. Init: "
                   "DecryptInit(InitProtect init) = init and C06_init_restore_all for every number of tracks and entries with arbitrary entry children - no guard on "
                   "sinf boxes the entry owns (RemoveEncryption repaired: fix bb3f974); in BYTES: C06_sinf_codec (frma/schm/schi/tenc/sinf parse(encode) = id) and "
                   "C06_entry_bytes_roundtrip: with the fixed fields of the Visual / Audio sample entry as TYPED fields (C06_entry_fixed_fields: data_reference_index, "
@@ -80,7 +80,7 @@ def run(ctx):
                         "aux_consistent: entries < 256 bytes (C07-F1 beyond); saio: box sizes unchanged between EncryptFragment and Encode (C07-F2)",
                         "trex / file theorems: the decrypt side resolves sample sizes with the same trex as the encrypt side; cenc (cbcs: generic theorem with a length hypothesis)",
                         "cbcs file / trex theorems: samples (mdat payload) below 4 GiB, sub-sample maps inside their sample",
-                        "timing: one trun per traf; the trun is what a decoder delivers (absent fields zero, fields < 2^32)",
+                        "timing: every trun is what a decoder delivers (absent fields zero, fields < 2^32); any number of truns per traf",
                         "entry bytes: child boxes of the sample entry other than sinf re-encode to the bytes they were decoded from (C01); 16-byte headers only on unknown children; "
                         "no further sinf behind the one that is removed (RemoveEncryption takes the LAST)",
                         "a clear input carrying a seig sample group that contradicts the tenc InitProtect writes is outside the property (protection signalling in the input)"]
@@ -121,6 +121,7 @@ def run(ctx):
                         "W the sample entry bytes (found by walking) of the clear init (AVC/HEVC/AAC + btrt/pasp/unknown/sinf-like/free children, own sinf), after InitProtect+Encode, after DecodeFile+DecryptInit+Encode, and the sinf DecryptInit returns; "
                         "H DecryptFragment on multi-track / multi-trun fragments assembled third-party style (1-3 tracks AVC/HEVC/audio, cenc/cbcs/clear per track, each protected by InitProtect+EncryptFragment then split in 1-3 truns, trafs in any order, saiz/saio/senc and 0-2 pssh at any position, unknown boxes with 16-byte headers in traf and moof, clear tracks with saiz/saio of their own, truns interleaved in the mdat, 8/16-byte mdat header, bytes in front of the moof; malformed: senc/saiz/saio/pssh renamed, a traf of a track the init does not know; every 4th input: a further traf of the first track): children, every trun data offset, sample bytes per traf, mdat position; "
                         "Y sample entries written from the syntax (any bytes in reserved/pre_defined positions, any depth, compressor-name length 0..31 and above, fractional sample rate; children before and after the sinf incl. unknown children with 16-byte headers; several sinf boxes, sinf without frma / without tenc, an entry not called encv/enca; cut short / damaged): DecodeBox + RemoveEncryption + Encode bytes and the returned sinf; "
+                        "N GetFullSamples metadata (file's trex / nil) of a traf with 1-4 truns, each with its own choice of per-sample fields, tfhd / trex defaults, first-sample-flags, empty truns, base decode times up to 2^64-1; Z Size() and encoded length of unknown boxes with 8- / 16-byte headers; "
                         "X sinf boxes written from the syntax: tenc versions 0/1/2, crypt:skip, isProtected 0/1/2, IV sizes 0/8/16, constant IVs, schm with URI, missing/duplicate/reordered/unknown children, short tenc/schm/frma, child size below 8",
     }
     ctx.cov["samples"] += [l[:300] for l in lines[10:12]] + [l[:300] for l in lines[n + 5:n + 7]] + [l[:300] for l in lines[-2:]]
